@@ -12,7 +12,6 @@
 use crate::sim::log;
 use serde::{Deserialize, Serialize};
 use shuttle_tokio_impl_inner as tk;
-use std::cell::RefCell;
 use std::future::Future;
 use std::pin::Pin;
 use std::sync::atomic::{AtomicU64, Ordering};
@@ -186,16 +185,15 @@ pub fn ret_val(body: usize) -> u64 {
 // Direct monitors (exclusion) — collected per run
 // ---------------------------------------------------------------------------------------------
 
-thread_local! {
-    static MON: RefCell<Vec<String>> = const { RefCell::new(Vec::new()) };
-}
+// process-wide (runs execute on their own short-lived threads, one at a time per worker)
+static MON: std::sync::Mutex<Vec<String>> = std::sync::Mutex::new(Vec::new());
 
 pub fn take_monitor_violations() -> Vec<String> {
-    MON.with(|m| std::mem::take(&mut *m.borrow_mut()))
+    std::mem::take(&mut *MON.lock().unwrap_or_else(|e| e.into_inner()))
 }
 
 fn mon_violation(s: String) {
-    MON.with(|m| m.borrow_mut().push(s));
+    MON.lock().unwrap_or_else(|e| e.into_inner()).push(s);
 }
 
 static NONCE: AtomicU64 = AtomicU64::new(1);
